@@ -40,6 +40,12 @@ theorem every_field_accounted_for :
       f ∈ resetPerRecord ∨ f ∈ writtenBeforeRead ∨ f ∈ selfRestoring ∨ f ∈ constants ∨ f ∈ bufferBookkeeping := by
   decide
 
+/-- (1b) The fields classed as constants are constants of the code as it is now (regenerated): no
+    statement of the package assigns a field of that name, increments it or takes its address; they
+    keep the value the constructor gave them, in every context of the pool alike. -/
+theorem constants_are_never_assigned : ∀ f ∈ constants, f ∉ Gen.printCtxFieldNamesAssigned := by
+  decide
+
 /-- (2) In particular the colours (the field pair that leaked into levels without registered colours),
     the mode bits, the layout, the severity, the message, the attributes and the timestamp are reset. -/
 theorem reset_includes_the_call :
